@@ -4,7 +4,7 @@ SPEC = {
     "translators": ["gen_codec"],
     "bins": ["c08"],
     "model_targets": ["Codec/CodecCheck.vo"],
-    "proof_targets": ["Codec/ReaderProofs.vo", "Codec/VarintProofs.vo", "Codec/UniverseProofs.vo", "Codec/HeaderProofs.vo"],
+    "proof_targets": ["Codec/ReaderProofs.vo", "Codec/VarintProofs.vo", "Codec/UniverseProofs.vo", "Codec/HeaderProofs.vo", "Codec/RulesShapeProofs.vo"],
     "assumptions": [
         "modelled and proved: every sequential byte decoder (resumable trees), bincode 2.0.1 config::standard() integer/bool/option/bytes/str/seq/map/tuple/enum framing, the MAGIC+version header and the order/operators of its checks (regenerated from rules.rs), the wire shape of struct Rules (field list regenerated; per-field shapes hand-written and validated by decoding real blobs exactly and re-encoding them byte for byte)",
         "the payload decoder and the post-decode validation (profiling flag, WASM rebuild, sub-pattern bound) are parameters of the header theorems: they hold for every decoder and every validation; that the real decoder is a sequential decoder of the modelled shape is checked differentially (streams a and d), not proved from bincode's source",
@@ -25,7 +25,7 @@ RULE = ("(a) random shapes of the universe (depth <= 3; u8..u64/usize, i16..i64,
         "modifier family (ascii/wide/nocase/fullword/xor/xor range/base64/base64wide/custom alphabet/private), hex patterns (wildcards, nibbles, jumps, "
         "alternatives, negation, >200 jumps = chains, unbounded), regexps (classes, greedy/lazy, /i /s, wide, chains, anchors), conditions with counts, "
         "offsets, lengths, at/in, of, for loops, filesize and header constraints, rule references, global/private rules, tags, metadata of every type, "
-        "globals of every type (bool/int/float/string/bytes/struct with array), regexps and regexp sets in conditions, math/hash/string imports; 6 buffers "
+        "globals of every type (bool/int/float/string/bytes/struct with array), regexps and regexp sets in conditions, math/hash/string imports; every 4th set is a regex-set family: 3-10 rules each with its own or-chain of non-literal `matches` over one of 1-4 string globals (one RegexSet per rule, >= 3 per blob), scanned once more per regexp with that global set through Scanner::set_global to a string only that rule's regexp matches; 6 buffers "
         "built from the patterns' own instances; dumps of R, deserialize(serialize R) and the second round trip. (c) every prefix <= 4096 bytes plus 512 "
         "sampled (quick) or every strict prefix (thorough; first 80 blobs) of each blob, all 12x255 single-byte header alterations of the first blob and 24 sampled of the "
         "others, foreign/random blobs. (d) whole real blobs decoded and re-encoded by the model of struct Rules. Non-trivial/distinct: distinct rule-set "
